@@ -1,0 +1,8 @@
+//go:build !verif
+
+// Package verifhook provides schedule-control points for the verification harness.
+// Without the build tag `verif` every call is an empty function.
+package verifhook
+
+// At marks a point at which the verification harness may park the calling goroutine.
+func At(point string, keys ...string) {}
